@@ -8,11 +8,11 @@ CONSTANTS
   MaxItems = 3
   MaxBatch = 2
   MaxFail = 1
-  MaxStops = 2
+  MaxStops = 1
   Inflights = {1, 2}
-  Hws = {2, 99}
+  Hws = {2}
   Caps = {2, 99}
-  Effs = {FALSE, TRUE}
+  Effs = {TRUE}
   Unbounded = 99
   Canonical = TRUE
   StrictOrder = FALSE
